@@ -1,8 +1,134 @@
 """C16 Epoch schedules accepted iff valid; Stan warmup adds up to the request (Engine A, CrossHair)."""
+import time
+import types
+
+import z3
+
+from .. import dse
 from ..chrun import Cond, run_conditions
-from ..harness import Check
+from ..harness import Check, Result
 
 TECH = "CrossHair symbolic execution (z3 per path) of the real EpochManager / stan_epochs with symbolic integer arguments against reference predicates; one process per condition"
+
+
+DMAX = 100000
+
+
+def chunk_large(chk):
+    """Engine C: EngineBuilder.build with three symbolic durations up to 1e5; math.gcd is a contract stub (returns some g >= 1 with
+    d_i = g * q_i), Engine a recorder; on every path z3 decides `chunk >= 1 and chunk divides every duration`"""
+    import liesel.goose as gs
+    import liesel.goose.builder as bld
+    from liesel.goose.epoch import EpochConfig, EpochType
+    from liesel.option import Option
+    from ..ch import fakeenv as fj
+
+    class Rec:
+        last = None
+
+        def __init__(self, **kw):
+            Rec.last = kw
+
+    class FakeJax:
+        Array = fj.KeyT
+        random = types.SimpleNamespace(PRNGKey=lambda n: fj.KeyT(("seed", n)), split=lambda k, n=2: fj.KeyVec(k, n))
+        vmap = staticmethod(lambda f, *a, **k: f)
+
+    class FakeModel:
+        def extract_position(self, keys, ms):
+            return {k: ms[k] for k in keys}
+
+        def update_state(self, pos, ms):
+            return ms | pos
+
+        def log_prob(self, ms):
+            return 0.0
+    D = [z3.Int(f"dur{i}") for i in range(3)]
+    witness = {}
+
+    def gcd(*xs):
+        p = dse.ctx()
+        g = z3.Int("gcd_result")
+        p.assume(g >= 1)
+        qs = []
+        for i, x in enumerate(xs):
+            q = z3.Int(f"gcd_q{i}")
+            p.assume(z3.And(q >= 1, dse._ze(x) == g * q))
+            qs.append(q)
+        witness["q"] = qs
+        return dse.SInt(g)
+
+    def run(path):
+        for d in D:
+            path.assume(z3.And(d >= 1, d <= DMAX))
+        b = gs.EngineBuilder(seed=1, num_chains=2)
+        b.set_model(FakeModel())
+        b._model_state = Option({"a": fj.Cell(("init", "a"))})
+        b.add_kernel(gs.RWKernel(["a"]))
+        b.set_epochs([EpochConfig(EpochType.INITIAL_VALUES, 1, 1, None)] + [EpochConfig(EpochType.BURNIN, dse.SInt(d), 1, None) for d in D])
+        b.build()
+        c = dse._as_int(dse._ze(Rec.last["jitted_sample_duration"]))
+        qs = witness["q"]
+        # first with the gcd stub's own witnesses (closes the unchanged code without non-linear reasoning), then directly
+        v, m = path.valid(z3.And(c >= 1, *[d == c * q for d, q in zip(D, qs)]))
+        if v == "unsat":
+            return None
+        path.solver.set("timeout", 60000)
+        v, m = path.valid(z3.And(c >= 1, *[d % c == 0 for d in D]))
+        if v == "unsat":
+            return None
+        if v == "sat":
+            return dict(durations=[int(str(m.eval(d, model_completion=True))) for d in D])
+        raise dse.Unsupported("z3 answered unknown on the divisibility postcondition (non-linear integer arithmetic)")
+
+    class _Ob:
+        name = f"EngineBuilder.build: the JIT chunk length divides every epoch duration, three symbolic durations up to {DMAX} (math.gcd as a contract: some common divisor >= 1)"
+        signature = "chunk-large"
+    saved = (bld.Engine, bld.math, bld.jax)
+    bld.Engine, bld.math, bld.jax = Rec, types.SimpleNamespace(gcd=gcd), FakeJax
+    t0 = time.time()
+    try:
+        stats, cex, complete = dse.explore(run, deadline=t0 + 300)
+        err = None
+    except Exception as ex:
+        stats, cex, complete, err = dse.Stats(), [], False, f"{type(ex).__name__}: {ex}"
+    finally:
+        bld.Engine, bld.math, bld.jax = saved
+    info = dict(tactic="dynamic symbolic execution + z3 (NIA) per path", paths=stats.paths, queries=stats.queries)
+    chk.extra["chunk_large"] = dict(paths=stats.paths, solver_queries=stats.queries, solver_s=round(stats.solver_s, 2))
+    if err:
+        chk.record(Result(_Ob, "unknown", stats.solver_s, info, detail=err[:400]))
+    elif cex:
+        rp = None
+        for cx in cex:
+            rp = chunk_replay(cx["durations"])
+            if rp["reproduced"]:
+                break
+        chk.record(Result(_Ob, "sat", stats.solver_s, info, replay=rp))
+    elif not complete:
+        chk.record(Result(_Ob, "unknown", stats.solver_s, info, detail="exploration incomplete"))
+    else:
+        chk.record(Result(_Ob, "unsat", stats.solver_s, info, twin="sat"))
+
+
+def chunk_replay(durations):
+    """the real builder and the real Engine (real jax) on the solver's durations"""
+    import jax.numpy as jnp
+    import liesel.goose as gs
+    try:
+        b = gs.EngineBuilder(seed=1, num_chains=2)
+        b.set_model(gs.DictInterface(lambda s: -0.5 * s["a"] ** 2))
+        b.set_initial_values({"a": jnp.array(0.1)})
+        b.add_kernel(gs.RWKernel(["a"]))
+        b.set_epochs([gs.EpochConfig(gs.EpochType.INITIAL_VALUES, 1, 1, None)] + [gs.EpochConfig(gs.EpochType.BURNIN, int(d), 1, None) for d in durations])
+        b.show_progress = False
+        e = b.build()
+        c = int(e._jitted_sample_duration)
+    except Exception as ex:
+        return dict(reproduced=True, inputs=dict(durations=durations), exception=f"{type(ex).__name__}: {ex}")
+    bad = c < 1 or any(d % c for d in durations)
+    return dict(reproduced=bool(bad), inputs=dict(durations=durations), observed=dict(jitted_sample_duration=c, remainders=[d % c if c else None for d in durations]),
+                note="real EngineBuilder.build() / Engine on real jax")
 
 
 def main():
@@ -18,8 +144,11 @@ def main():
         conds += [Cond(M, "check_iff4", "EpochManager accept-iff-valid for schedules of exactly 4 epochs", 1500),
                   Cond(M, "check_stan_wide", "stan_epochs for warmup <= 100000", 900)]
     run_conditions(chk, conds)
+    import os
+    if os.environ.get("VERIF_ONLY") in (None, "", "chunk-large"):
+        chunk_large(chk)
     chk.functions += ["liesel.goose.epoch.EpochManager.__init__/append/next/has_more", "liesel.goose.epoch.EpochConfig.to_state", "liesel.goose.epoch.EpochType.is_warmup", "liesel.goose.warmup.stan_epochs", "liesel.goose.builder.EngineBuilder.build (chunk length)"]
-    chk.bounds += ["schedules of <= 3 epochs (thorough: 4) with symbolic type in 0..4, unbounded symbolic duration and thinning", "stan_epochs: warmup <= 3000 (thorough 1e5), all seven arguments symbolic, posterior thinning 1..6 with posterior = thinning * q"]
+    chk.bounds += ["schedules of <= 3 epochs (thorough: 4) with symbolic type in 0..4, unbounded symbolic duration and thinning", f"builder chunk: three symbolic durations <= 24 (CrossHair, Euclid executed) and <= {DMAX} (Engine C, gcd as a contract)", "stan_epochs: warmup <= 3000 (thorough 1e5), all seven arguments symbolic, posterior thinning 1..6 with posterior = thinning * q"]
     chk.assume("admissible stan_epochs arguments: init, term, base >= 1; warmup >= max(20, init+term+base); 1 <= thinning_warmup <= min(init, term, base); thinning_posterior divides posterior; base = 0 (non-terminating loop) excluded",
                "builder chunk: Engine re-bound to a recorder, jax in the builder re-bound to the key-term stand-in, math.gcd re-bound to a pure-Python Euclid (contract of math.gcd)")
     return chk.finish(technique=TECH)
